@@ -286,7 +286,7 @@ def oracle(case):
         return False, f"is_ready returned {ready} with errors {errs}"
     if ready and has_act and spaced(cfg) and raised:
         return False, (f"is_ready() reported the engine ready (no errors), every rule block has an activation method and the "
-                       f"rules are blank-separated, but process() raised {raised[0]}: {raised[2]}")
+                       f"rules are written with white-space separated tokens, but process() raised {raised[0]}: {raised[2]}")
     # completeness: what the loaded rules / outputs need (operators as the property's hypothesis lets the check see them:
     # blank-separated; tab / parenthesis separated operators are outside the hypothesis and only compared with the model)
     for bi, b in enumerate(cfg[2]):
